@@ -176,6 +176,9 @@ func Generate(r *vh.Rand, p Profile, deps []*descriptorpb.FileDescriptorProto) *
 	if nFiles > 1 {
 		g.tag("multi-file")
 	}
+	if p.Supported {
+		repairSupported(c.Gen)
+	}
 	return c
 }
 
@@ -1427,4 +1430,202 @@ func AllEnums(fd protoreflect.FileDescriptor) []protoreflect.EnumDescriptor {
 	}
 	walk(fd.Messages())
 	return out
+}
+
+// ---------------------------------------------------------------- supported-subset repair
+
+// repairSupported rewrites annotation combinations the reader rejects into
+// ones it accepts, so that descriptor sets of the Supported profile mostly
+// reflect (C15 needs successful exports): flatten cycles, enum rules naming
+// undefined numbers, legacy "keys" entity inference on a message without a
+// known suffix, the unspecified key format, and string format / list rule
+// combinations that exclude each other.
+func repairSupported(files []*descriptorpb.FileDescriptorProto) {
+	type msgInfo struct {
+		d    *descriptorpb.DescriptorProto
+		full string
+	}
+	msgs := map[string]*msgInfo{}
+	enumVals := map[string][]int32{}
+	enumNoDefault := map[string]bool{}
+	var order []*msgInfo
+	var walk func(prefix string, ms []*descriptorpb.DescriptorProto)
+	addEnums := func(prefix string, es []*descriptorpb.EnumDescriptorProto) {
+		for _, e := range es {
+			full := prefix + "." + e.GetName()
+			for _, v := range e.Value {
+				enumVals[full] = append(enumVals[full], v.GetNumber())
+			}
+			if eo, _ := proto.GetExtension(e.GetOptions(), ext_j5pb.E_Enum).(*ext_j5pb.EnumOptions); eo != nil && eo.NoDefault {
+				enumNoDefault[full] = true
+			}
+		}
+	}
+	walk = func(prefix string, ms []*descriptorpb.DescriptorProto) {
+		for _, m := range ms {
+			mi := &msgInfo{d: m, full: prefix + "." + m.GetName()}
+			msgs[mi.full] = mi
+			order = append(order, mi)
+			addEnums(mi.full, m.EnumType)
+			walk(mi.full, m.NestedType)
+		}
+	}
+	for _, f := range files {
+		addEnums("."+f.GetPackage(), f.EnumType)
+		walk("."+f.GetPackage(), f.MessageType)
+	}
+	// flatten edges: drop those closing a cycle
+	edges := map[string][]string{}
+	var reaches func(from, to string, seen map[string]bool) bool
+	reaches = func(from, to string, seen map[string]bool) bool {
+		if from == to {
+			return true
+		}
+		if seen[from] {
+			return false
+		}
+		seen[from] = true
+		for _, n := range edges[from] {
+			if reaches(n, to, seen) {
+				return true
+			}
+		}
+		return false
+	}
+	for _, mi := range order {
+		for _, f := range mi.d.Field {
+			fo, _ := proto.GetExtension(f.GetOptions(), ext_j5pb.E_Field).(*ext_j5pb.FieldOptions)
+			if fo == nil || f.GetType() != descriptorpb.FieldDescriptorProto_TYPE_MESSAGE {
+				continue
+			}
+			flat := fo.GetMessage().GetFlatten() || fo.GetObject().GetFlatten()
+			if !flat || f.GetLabel() == descriptorpb.FieldDescriptorProto_LABEL_REPEATED {
+				continue
+			}
+			target := f.GetTypeName()
+			if reaches(target, mi.full, map[string]bool{}) {
+				if fo.GetMessage() != nil {
+					fo.GetMessage().Flatten = false
+				}
+				if fo.GetObject() != nil {
+					fo.GetObject().Flatten = false
+				}
+				proto.SetExtension(f.Options, ext_j5pb.E_Field, fo)
+				continue
+			}
+			edges[mi.full] = append(edges[mi.full], target)
+		}
+	}
+	for _, mi := range order {
+		name := mi.d.GetName()
+		suffixed := hasSuffix(name, "Keys") || hasSuffix(name, "State") || hasSuffix(name, "Data") || hasSuffix(name, "Event")
+		for _, f := range mi.d.Field {
+			// legacy entity inference through a "keys" field
+			if f.GetName() == "keys" && f.GetType() == descriptorpb.FieldDescriptorProto_TYPE_MESSAGE && !suffixed {
+				if t := msgs[f.GetTypeName()]; t != nil && proto.HasExtension(t.d.GetOptions(), ext_j5pb.E_Psm) && !proto.HasExtension(mi.d.GetOptions(), ext_j5pb.E_Psm) {
+					part := schema_j5pb.EntityPart_STATE
+					if mi.d.Options == nil {
+						mi.d.Options = &descriptorpb.MessageOptions{}
+					}
+					proto.SetExtension(mi.d.Options, ext_j5pb.E_Psm, &ext_j5pb.PSMOptions{EntityName: "foo", EntityPart: &part})
+				}
+			}
+			if f.Options == nil {
+				continue
+			}
+			vc, _ := proto.GetExtension(f.Options, validate.E_Field).(*validate.FieldConstraints)
+			lc, _ := proto.GetExtension(f.Options, list_j5pb.E_Field).(*list_j5pb.FieldConstraint)
+			fo, _ := proto.GetExtension(f.Options, ext_j5pb.E_Field).(*ext_j5pb.FieldOptions)
+			// enum rules name defined numbers only
+			fixEnum := func(er *validate.EnumRules, tn string) {
+				if er == nil {
+					return
+				}
+				vals := enumVals[tn]
+				var nonzero []int32
+				for _, v := range vals {
+					if v != 0 {
+						nonzero = append(nonzero, v)
+					}
+				}
+				if len(er.In) > 0 {
+					if len(nonzero) > 0 {
+						er.In = nonzero[:1]
+					} else if enumNoDefault[tn] {
+						er.In = nil
+					} else {
+						er.In = []int32{0}
+					}
+				}
+				if len(er.NotIn) > 0 {
+					er.NotIn = []int32{0}
+				}
+			}
+			if vc != nil {
+				fixEnum(vc.GetEnum(), f.GetTypeName())
+				fixEnum(vc.GetRepeated().GetItems().GetEnum(), f.GetTypeName())
+				if mv := vc.GetMap().GetValues().GetEnum(); mv != nil {
+					// the value type of a map is that of the entry's value field
+					if e := msgs[f.GetTypeName()]; e != nil && len(e.d.Field) == 2 {
+						fixEnum(mv, e.d.Field[1].GetTypeName())
+					}
+				}
+				proto.SetExtension(f.Options, validate.E_Field, vc)
+			}
+			if fo != nil {
+				if k := fo.GetKey(); k != nil {
+					if kf, ok := k.Type.(*ext_j5pb.KeyField_Format_); ok && kf.Format == ext_j5pb.KeyField_FORMAT_UNSPECIFIED {
+						kf.Format = ext_j5pb.KeyField_FORMAT_ID62
+						proto.SetExtension(f.Options, ext_j5pb.E_Field, fo)
+					}
+				}
+			}
+			if f.GetType() == descriptorpb.FieldDescriptorProto_TYPE_STRING && lc.GetString_() != nil {
+				sr := vc.GetString()
+				if vc.GetRepeated() != nil {
+					sr = vc.GetRepeated().GetItems().GetString()
+				}
+				format := ""
+				if sr != nil {
+					switch sr.GetPattern() {
+					case `^\d{4}-\d{2}-\d{2}$`:
+						format = "date"
+					case `^\d(.?\d)?$`:
+						format = "number"
+					case "^[0-9A-Za-z]{22}$":
+						format = "id62"
+					}
+					switch {
+					case sr.GetUuid():
+						format = "uuid"
+					case sr.GetEmail():
+						format = "email"
+					case sr.GetHostname():
+						format = "hostname"
+					case sr.GetIpv4():
+						format = "ipv4"
+					case sr.GetIpv6():
+						format = "ipv6"
+					case sr.GetUri():
+						format = "uri"
+					}
+				}
+				ok := true
+				ls := lc.GetString_()
+				switch {
+				case ls.GetOpenText() != nil:
+					ok = format == "" && !proto.HasExtension(f.Options, ext_j5pb.E_Key)
+				case ls.GetForeignKey().GetUniqueString() != nil:
+					ok = format == ""
+				case ls.GetForeignKey().GetId62() != nil:
+					ok = format == "" || format == "id62"
+				case ls.GetForeignKey().GetUuid() != nil:
+					ok = format == "" || format == "uuid"
+				}
+				if !ok {
+					proto.ClearExtension(f.Options, list_j5pb.E_Field)
+				}
+			}
+		}
+	}
 }
